@@ -114,6 +114,7 @@ def _shard(args):
     try:
         prop.setup_shard(tier, seed, shard)
         for case in enum_cases:
+            _heartbeat(prop, shard, case)
             out = safe_check(prop, case)
             _record(prop, res, case, out)
         res['enum_done'] = len(enum_cases)
@@ -133,8 +134,11 @@ def _shard(args):
             if time.time() > deadline:
                 res['budget_exhausted'] = True
                 raise _Stop()
+            _heartbeat(prop, shard, case)
             out = safe_check(prop, case)
             _record(prop, res, case, out)
+            if res.get('stop'):
+                raise _Stop()
 
         try:
             campaign()
@@ -145,6 +149,23 @@ def _shard(args):
         res['error'] = traceback.format_exc()
     res['nontrivial_keys'] = list(res['nontrivial_keys'])
     return res
+
+
+def _heartbeat(prop, shard, case):
+    """Hang detection support (props with ``hang_timeout``): the case about to be evaluated is written to tmpfs so that
+    the parent can name the culprit when a worker stops making progress inside C code (e.g. a backtracking regex)."""
+    if not getattr(prop, 'hang_timeout', None):
+        return
+    try:
+        with open(_hb_path(prop.id, shard), 'w') as f:
+            json.dump(case, f)
+    except (OSError, TypeError, ValueError):
+        pass
+
+
+def _hb_path(pid, shard):
+    base = '/dev/shm' if os.path.isdir('/dev/shm') else '/tmp'
+    return os.path.join(base, 'vf-hb-%s-%d-%d.json' % (pid, os.getppid() if shard >= 0 and multiprocessing.current_process().name != 'MainProcess' else os.getpid(), shard))
 
 
 def _record(prop, res, case, out):
@@ -161,6 +182,8 @@ def _record(prop, res, case, out):
             res['samples'].append(prop.sample_repr(case))
     if out.fail is not None:
         sig, detail = out.fail
+        if sig.startswith('does-not-terminate'):
+            res['stop'] = True        # pathological tree: every further case may take minutes
         res['fail_counts'][sig] += 1
         lst = res['failures'].setdefault(sig, [])
         if len(lst) < 3:
@@ -379,8 +402,46 @@ def run_check(pid, tier, seed):
         per = max(1, total // NSHARDS) if total > 0 else 0
         jobs = [(pid, tier, seed, s, per, deadline, enum_list[s::NSHARDS]) for s in range(NSHARDS)]
         ctx = multiprocessing.get_context('fork')
+        hang_cases = []
         with ctx.Pool(min(NSHARDS, os.cpu_count() or 1)) as pool:
-            results = pool.map(_shard, jobs, chunksize=1)
+            asyncs = [pool.apply_async(_shard, (j,)) for j in jobs]
+            hang = getattr(prop, 'hang_timeout', None)
+            results = []
+            pending = dict(enumerate(asyncs))
+            while pending:
+                for i in list(pending):
+                    if pending[i].ready():
+                        results.append(pending.pop(i).get())
+                if not pending:
+                    break
+                time.sleep(0.2)
+                if hang:
+                    now = time.time()
+                    for i in list(pending):
+                        hb = _hb_path(pid, i)
+                        try:
+                            age = now - os.path.getmtime(hb)
+                        except OSError:
+                            continue
+                        if age > hang:
+                            try:
+                                with open(hb) as f:
+                                    hang_cases.append(json.load(f))
+                            except (OSError, ValueError):
+                                pass
+                            pending.pop(i)       # that worker is stuck; its partial results are lost
+                    if hang_cases and not any(True for i in pending):
+                        break
+            pool.terminate()
+        for i in range(NSHARDS):
+            try:
+                os.remove(_hb_path(pid, i))
+            except OSError:
+                pass
+        for case in hang_cases[:2]:          # confirming costs minutes; two culprits are enough to report
+            verdict = prop.confirm_hang(case)
+            if verdict is not None and not any(v[0] == verdict[0] for v in violations):
+                violations.append((verdict[0], case, verdict[1], None))
         gen_fail = {}
         shard_extra = {}
         for r in results:
@@ -421,21 +482,27 @@ def run_check(pid, tier, seed):
     if violations:
         prop.setup_shard(tier, seed, -1)
         for sig, case, detail, path in violations:
+            if sig.startswith('does-not-terminate') and hasattr(prop, 'confirm_hang') and 'isolated runs' not in detail:
+                verdict = prop.confirm_hang(case)     # a slow case is only a candidate until confirmed in isolation
+                if verdict is None:
+                    continue
+                sig, detail = verdict
             if path is None:
-                try:
-                    small = shrink_case(prop, case, sig)
-                    o = prop.check(small)
-                    if o.fail is not None and o.fail[0] == sig:
-                        case, detail = small, o.fail[1]
-                except Exception:
-                    pass
+                if not sig.startswith('does-not-terminate'):      # never re-run a non-terminating case in this process
+                    try:
+                        small = shrink_case(prop, case, sig)
+                        o = prop.check(small)
+                        if o.fail is not None and o.fail[0] == sig:
+                            case, detail = small, o.fail[1]
+                    except Exception:
+                        pass
                 path = write_replay(pid, sig, case, detail)
             print('  signature: %s' % sig)
             print('  detail: %s' % detail)
             print('  case: %s' % short(case, 600))
             out_lines.append('VIOLATION property=%s replay=%s' % (pid, path))
         prop.teardown_shard()
-        rc = 1
+        rc = 1 if out_lines else 0
 
     # 6. generator health
     nfrac = len(nontrivial) / max(1, evaluations)
@@ -470,7 +537,7 @@ def run_check(pid, tier, seed):
     ev = {
         'property_id': pid, 'tier': tier, 'seed': seed, 'level': prop.level, 'coverage': cov,
         'assumptions': list(prop.assumptions), 'wall_s': round(time.time() - t0, 2),
-        'violations': len(violations),
+        'violations': len(out_lines),
     }
     os.makedirs(EVIDENCE_DIR, exist_ok=True)
     with open(os.path.join(EVIDENCE_DIR, pid + '.json'), 'w') as f:
